@@ -2,9 +2,9 @@ package main
 
 import (
 	"fmt"
-	"strings"
 	"go/types"
 	"sort"
+	"strings"
 
 	"golang.org/x/tools/go/ssa"
 )
@@ -62,7 +62,9 @@ func runC10(c *Ctx, r *Report) {
 			}
 		})
 	}
-	collect(c.SSAFn(c.Fn("eval", "State.Reset")), "State.Reset")
+	for _, rf := range c.resetFunctions() {
+		collect(rf, "State.Reset")
+	}
 	evalOne := c.SSAFn(c.Fn("repl", "EvalOne"))
 	eachInstr(evalOne, func(in ssa.Instruction) {
 		if d, ok := in.(*ssa.Defer); ok {
@@ -85,7 +87,7 @@ func runC10(c *Ctx, r *Report) {
 	})
 	// R4: what a reset writes does not depend on the transient state it is discarding
 	{
-		resetFns := []*ssa.Function{c.SSAFn(c.Fn("eval", "State.Reset"))}
+		resetFns := c.resetFunctions()
 		nR4 := 0
 		for _, rf := range resetFns {
 			written := map[int]bool{}
@@ -259,25 +261,26 @@ func runC10(c *Ctx, r *Report) {
 				transient[strings.TrimPrefix(strings.SplitN(o.Desc, " ", 2)[0], "State.")] = true
 			}
 		}
-		rf := c.SSAFn(c.Fn("eval", "State.Reset"))
 		n5 := 0
-		eachInstr(rf, func(in ssa.Instruction) {
-			s, ok := in.(*ssa.Store)
-			if !ok {
-				return
-			}
-			fa, ok := s.Addr.(*ssa.FieldAddr)
-			if !ok {
-				return
-			}
-			if nn := namedStruct(fa.X.Type()); nn == nil || nn.Obj() != stateT.Obj() {
-				return
-			}
-			n5++
-			fname := st.Field(fa.Field).Name()
-			r.Check(transient[fname], "C10.R5", ssaFuncName(rf), "Reset writes the transient field "+fname+" only", c.Pos(s.Pos()),
-				"State.Reset (run after every recovered panic) overwrites State."+fname+", which no evaluator function swaps around evaluation: it is session state (definitions, macros, caches, configuration), and a failed input then erases it for every later input")
-		})
+		for _, rf := range c.resetFunctions() {
+			eachInstr(rf, func(in ssa.Instruction) {
+				s, ok := in.(*ssa.Store)
+				if !ok {
+					return
+				}
+				fa, ok := s.Addr.(*ssa.FieldAddr)
+				if !ok {
+					return
+				}
+				if nn := namedStruct(fa.X.Type()); nn == nil || nn.Obj() != stateT.Obj() {
+					return
+				}
+				n5++
+				fname := st.Field(fa.Field).Name()
+				r.Check(transient[fname], "C10.R5", ssaFuncName(rf), "Reset writes the transient field "+fname+" only", c.Pos(s.Pos()),
+					"State.Reset (run after every recovered panic) overwrites State."+fname+", which no evaluator function swaps around evaluation: it is session state (definitions, macros, caches, configuration), and a failed input then erases it for every later input")
+			})
+		}
 		if n5 < 3 {
 			r.Undecided("C10.R5: only %d field writes in State.Reset", n5)
 		}
@@ -329,4 +332,35 @@ func init() {
 		assume:  []string{"side effects completed before the failure (assignments to globals, files) are outside the property by its own wording", "extension callbacks that replace s.Context/s.Cancel (read, run) are re-initialised by SetContext at the next input"},
 		run:     runC10,
 	})
+}
+
+// resetFunctions: State.Reset and the methods of *State it calls (statically, transitively): the field writes
+// of a reset may be spread over helpers.
+func (c *Ctx) resetFunctions() []*ssa.Function {
+	stateT := c.TypeNamed("eval", "State")
+	root := c.SSAFn(c.Fn("eval", "State.Reset"))
+	seen := map[*ssa.Function]bool{root: true}
+	res := []*ssa.Function{root}
+	for i := 0; i < len(res); i++ {
+		eachInstr(res[i], func(in ssa.Instruction) {
+			call, ok := in.(ssa.CallInstruction)
+			if !ok {
+				return
+			}
+			sc := call.Common().StaticCallee()
+			if sc == nil || seen[sc] || sc.Signature.Recv() == nil || sc.Blocks == nil {
+				return
+			}
+			if n := namedStruct(sc.Signature.Recv().Type()); n == nil || n.Obj() != stateT.Obj() {
+				return
+			}
+			// only helpers called on the same receiver
+			if len(call.Common().Args) == 0 || call.Common().Args[0] != ssa.Value(res[i].Params[0]) {
+				return
+			}
+			seen[sc] = true
+			res = append(res, sc)
+		})
+	}
+	return res
 }
